@@ -240,6 +240,13 @@ def run(fx, tier):
     if not want <= seen_props and not v.violations:
         raise AnalysisBroken('capabilities never read on any path: %s' % sorted(want - seen_props))
     capability_source(fx, v, 'C15')
+    # the capabilities are read from the CONNACK by their MQTT 5 identifiers: compile-fail witnesses for the identifiers
+    # and value types of the capability properties and for their membership in connack_props (shared with C17)
+    from c17 import run_witness
+    CAPS = ('maximum_packet_size', 'maximum_qos', 'retain_available', 'topic_alias_maximum', 'wildcard_subscription_available',
+            'shared_subscription_available', 'subscription_identifier_available', 'receive_maximum', 'server_keep_alive')
+    v.rule('R-TABLE', 'identifiers / value types of the CONNACK capability properties equal MQTT 5 Table 2-4 (static_assert witnesses)')
+    run_witness(v, 'C15', lambda row: any(row in ('id:' + c_, 'type:' + c_, 'pack:connack:' + c_) for c_ in CAPS))
     v.expect_min('R-OWN', 8, 'capability store: writers, provenance, dominance x TUs')
     v.expect_min('R-DOM', 2000, 'capability obligations over perform() paths')
     return v.finish(
